@@ -194,7 +194,7 @@ def recomputed_body(node) -> F:
     return sum((recomputed_body(c) * int(c.repetition_count) for c in node), F(0))
 
 
-def direct_predicates(world: World):
+def direct_predicates(world: World, locations: bool = True):
     """The property predicates on the real objects.  Returns None or a description of the first failure.
     Reading `duration` fills caches, so the cache fields are saved and restored around the evaluation."""
     q = Q()
@@ -218,7 +218,7 @@ def direct_predicates(world: World):
         for k, c in enumerate(n):
             if c.parent is not n:
                 return 'child %d of node %s has a different parent' % (k, list(path))
-        for dbg in (False, True):
+        for dbg in ((False, True) if locations else ()):
             q.Node.debug = dbg
             try:
                 loc = n.get_location()
@@ -655,11 +655,13 @@ def evaluate(rec, answer):
     for k, (st, err, dump, direct) in enumerate(zip(steps, rec['errs'], rec['dumps'], rec['direct'])):
         _tag, merr, mtree, _next, mout, verdict = st
         # 1. the judge (Lean spec on the implementation's state) and the direct predicates
-        if verdict != ['ok']:
-            res['violation'] = (k, 'after %s the bookkeeping state violates the specification: %s' % (rec['ops'][k][:2], sx(verdict)))
-            return res
-        if direct:
-            res['violation'] = (k, 'after %s: %s' % (rec['ops'][k][:2], direct))
+        if verdict != ['ok'] or direct:
+            what = 'after %s %s' % (rec['ops'][k][0], rec['ops'][k][1])
+            if direct:
+                what += ': ' + direct
+            if verdict != ['ok']:
+                what += '; the bookkeeping state violates the specification: %s' % sx(verdict)
+            res['violation'] = (k, what)
             return res
         if merr == 'unsupported':
             res['unsupported'] += 1
@@ -806,7 +808,8 @@ def _account(ctx, items, family):
         sig = None
         if res['violation']:
             k, what = res['violation']
-            sig = (it['ops'][k][0] if k >= 0 else 'init', what.split(':')[-1].strip()[:24])
+            sig = (it['ops'][k][0] if k >= 0 else 'init',
+                   'cache' if ('cached-duration' in what or 'reports duration' in what) else 'links')
         if res['violation'] and sig not in seen and len(seen) < 12:
             seen.add(sig)
             init, ops = it['init'], it['ops'][:k + 1]
@@ -904,6 +907,101 @@ def pf_c09_2_witness():
     return core.to_frac(root.duration), recomputed_body(root) * root.repetition_count
 
 
+def _check_beside(ctx, n):
+    """PF-C09-2 stream: operations on a copy / a detached sub-tree next to the tree it came from; the
+    model `applyBeside` keeps the defective behaviour, the judge decides about the ORIGINAL tree."""
+    rng = ctx.fork('beside')
+    listed = 'PF-C09-2' in {kf.get('finding') for kf in ctx.findings.for_property(PID)}
+    lines, meta = [], []
+    for _ in range(n):
+        spec = rand_spec(rng, rng.choice([2, 2, 3]), [rng.randrange(3, 12)])
+        w = World(spec)
+        main = w.root
+        inner = [(p, m) for p, m in w.nodes() if p]
+        if not inner:
+            continue
+        for p, m in w.nodes():
+            if rng.random() < 0.5:
+                m.duration
+        branching = [(p, m) for p, m in inner if len(m) > 0 or m._waveform is None]
+        path, x = rng.choice(branching if branching and rng.random() < 0.8 else inner)
+        mode = rng.choice(['copy', 'copy', 'copy-noparent', 'detach'])
+        if mode == 'copy':
+            d = x.copy_tree_structure()
+        elif mode == 'copy-noparent':
+            d = x.copy_tree_structure(new_parent=None)
+        else:
+            par = x.parent
+            k = list(par).index(x)
+            par[k:k + 1] = []
+            d = x
+            main.duration
+        w.number(d)
+        for _step in range(rng.randrange(1, 4)):
+            w.root = d
+            hosts = [list(p) for p, m in w.nodes() if m._waveform is None]
+            if hosts and rng.random() < 0.45:
+                op = ['append', rng.choice(hosts), fresh_arg(rng), rng.choice(['loop', 'kwargs'])]
+            else:
+                op = rand_op(rng, w, max_nodes=40)
+            if op[0] == 'copy' or not applicable_pre(w, op):
+                w.root = main
+                continue
+            in_class = d.parent is not None and any(m is d.parent for _p, m in w.nodes(main))
+            t0, d0, next0 = w.dump(main), w.dump(d), w.next
+            r = exec_op(w, op)
+            w.root = main
+            if r is None:
+                continue
+            lean, err, _out = r
+            t1, d1 = w.dump(main), w.dump(d)
+            direct = direct_predicates(w)
+            w.root = d
+            direct_d = direct_predicates(w, locations=False)
+            w.root = main
+            lines.append(sx(['c09', 'beside', t0, d0, next0, lean]))
+            lines.append(sx(['c09', 'judge', t1]))
+            lines.append(sx(['c09', 'judge', d1]))
+            meta.append((op, in_class, t1, d1, err, direct, direct_d, mode))
+            if direct:
+                break           # the original tree is corrupt from here on
+    answers = core.Lean.run(lines)
+    for i, (op, in_class, t1, d1, err, direct, direct_d, mode) in enumerate(meta):
+        ans, jt, jd = answers[3 * i], answers[3 * i + 1], answers[3 * i + 2]
+        ctx.case(lines[3 * i])
+        ctx.count('beside:' + mode + (':in-class' if in_class else ':outside-class'))
+        bad_main = (jt != ['ok']) or direct
+        if bad_main:
+            what = ('an operation (%s) on a %s changed the ORIGINAL tree: %s %s' % (op[0], mode, direct or '', sx(jt)))
+            if in_class and listed:
+                ctx.count('beside:known-finding-reproduced')
+                ctx.known_finding('PF-C09-2', 'editing a detached sub-tree / a copy that still points to its former parent '
+                                  'corrupts the cached duration of the tree it came from (random two-tree stream)')
+            else:
+                ctx.violation(what, {'kind': 'beside', 'line': lines[3 * i], 'in_class': in_class})
+                continue
+        if jd != ['ok'] or direct_d:
+            ctx.violation('the edited %s itself is incoherent after %s: %s %s' % (mode, op[0], direct_d or '', sx(jd)),
+                          {'kind': 'beside', 'line': lines[3 * i]})
+            continue
+        if ans[0] != 'ok':
+            raise core.MachineryError('beside request rejected: %r' % (ans,))
+        if ans[3] == 'unsupported':
+            ctx.count('model-unsupported')
+            continue
+        if (err or '-') != ans[3]:
+            ctx.drift('operation beside another tree vs QP.C09.applyBeside', lines[3 * i], err or '-', ans[3])
+            continue
+        for impl, model, name in ((t1, ans[1], 'original tree'), (d1, ans[2], 'edited tree')):
+            hard, soft = diff_trees(parse_sx(sx(impl)), model)
+            if hard:
+                ctx.drift('operation beside another tree vs QP.C09.applyBeside', lines[3 * i], name + ': ' + hard, '')
+                break
+            # cache presence/value of the original tree is what this finding is about: compare it as well
+            if name == 'original tree' and parse_sx(sx(impl)) != model and in_class:
+                ctx.count('beside:original-tree-cache-differs-from-model')
+
+
 def _known_findings(ctx):
     listed = {kf.get('finding') for kf in ctx.findings.for_property(PID)}
     rep, want = pf_c09_2_witness()
@@ -974,6 +1072,7 @@ def run(ctx: core.Ctx):
 
     ctx.extra.pop('_violation_signatures', None)
     _check_eq(ctx, ctx.n(600, 10000))
+    _check_beside(ctx, ctx.n(300, 6000))
     tot = ctx.counters.get('steps-identical-to-model', 0) + ctx.counters.get(
         'steps-soft-difference(uid/cache-presence/stale fields of detached nodes)', 0)
     ctx.extra['structural_agreement'] = '%d of %d compared steps identical in every field (uids, caches, positions, parents)' % (
